@@ -314,6 +314,13 @@ def run(ctx):
                           lp.iter if isinstance(lp, ast.For) else lp.test,
                           40)), node=bad[0] if bad else lp)
     ctx.floor("C05-R11", n11, 6, "loops of the priorized fitting functions")
+    from .. import link as _link
+    n12 = _link.argument_binding(
+        ctx, "C05-R12",
+        roots=["source_finder.SourceFinder.priorized_fit_islands"],
+        what="priorized fitting call graph")
+    ctx.floor("C05-R12", n12, 15, "internal calls reachable from priorized "
+              "fitting")
     # blends are fitted jointly: default grouping length (shared with C19)
     from .c19 import default_linking_length
     ctx.rule("C05-R8", "blended sources are fitted jointly: the default "
